@@ -187,13 +187,21 @@ pub struct Instance {
     methods: Option<verif::jsonrpsee::Methods>,
     pub calls: u64,
     owns_dir: bool,
+    /// seed of the in-memory hash containers of this replica (applied before every dispatch)
+    pub hash_seed: Option<u64>,
 }
 
 impl Instance {
     /// open (or create) the database at `dir`
     pub fn open(dir: &Path) -> Result<Instance, String> {
         let methods = verif::rpc_methods(dir).map_err(|e| e.to_string())?;
-        Ok(Instance { dir: dir.to_path_buf(), methods: Some(methods), calls: 0, owns_dir: false })
+        Ok(Instance { dir: dir.to_path_buf(), methods: Some(methods), calls: 0, owns_dir: false, hash_seed: None })
+    }
+    pub fn fresh_seeded(tag: &str, hash_seed: u64) -> Instance {
+        verif::simhash::set_seed(hash_seed);
+        let mut i = Instance::fresh(tag);
+        i.hash_seed = Some(hash_seed);
+        i
     }
     pub fn fresh(tag: &str) -> Instance {
         let dir = fresh_dir(tag);
@@ -207,6 +215,9 @@ impl Instance {
     }
     pub fn reopen(&mut self) -> Result<(), String> {
         self.methods = None;
+        if let Some(h) = self.hash_seed {
+            verif::simhash::set_seed(h);
+        }
         self.methods = Some(verif::rpc_methods(&self.dir).map_err(|e| e.to_string())?);
         Ok(())
     }
@@ -228,6 +239,9 @@ impl Instance {
     /// dispatch a raw JSON-RPC request string through the real method table
     pub fn call_raw(&mut self, req: &str) -> Resp {
         self.calls += 1;
+        if let Some(h) = self.hash_seed {
+            verif::simhash::set_seed(h);
+        }
         let Some(methods) = self.methods.as_ref() else {
             return Resp::Err { code: -1, message: "instance closed".into(), data: None };
         };
